@@ -27,6 +27,21 @@ fn viol(rec: &mut Rec, sch: &str, art: &str, what: &str, id: &str, detail: Strin
     rec.violation(&format!("C12/{}/{}/{}", sch, art, what), id, detail);
 }
 
+/// A reader that returns at most `chunk` bytes per `read` call.
+pub struct ChunkReader<'a> {
+    pub data: &'a [u8],
+    pub pos: usize,
+    pub chunk: usize,
+}
+impl<'a> ark_serialize::Read for ChunkReader<'a> {
+    fn read(&mut self, buf: &mut [u8]) -> ark_std::io::Result<usize> {
+        let k = buf.len().min(self.chunk).min(self.data.len() - self.pos);
+        buf[..k].copy_from_slice(&self.data[self.pos..self.pos + k]);
+        self.pos += k;
+        Ok(k)
+    }
+}
+
 /// A reader over a byte string that records the offset at which every read call starts.
 pub struct RecReader<'a> {
     pub data: &'a [u8],
@@ -77,6 +92,25 @@ pub fn roundtrip<T: CanonicalSerialize + CanonicalDeserialize>(rec: &mut Rec, sc
                 continue;
             }
         };
+        // the same bytes delivered by a reader that hands out short reads (1, 7 and 100 bytes per call, as a pipe or a
+        // buffered file may): the result must be the same value
+        for chunk in [1usize, 7, 100] {
+            if chunk == 1 && bytes.len() > 4096 {
+                continue;
+            }
+            let mut cr = ChunkReader { data: &bytes[..], pos: 0, chunk };
+            match catch(|| T::deserialize_with_mode(&mut cr, *c, *v)) {
+                Ok(Ok(y2)) => {
+                    let mut b2 = Vec::new();
+                    let _ = y2.serialize_with_mode(&mut b2, *c);
+                    if b2 != bytes {
+                        viol(rec, sch, art, "short-reads-change-the-value", id, format!("{}: deserializing from a reader that returns at most {} bytes per call gives a different value", mn, chunk));
+                    }
+                }
+                Ok(Err(e)) => viol(rec, sch, art, "short-reads-rejected", id, format!("{}: own serialization rejected when the reader returns at most {} bytes per call: {:?}", mn, chunk, e)),
+                Err(p) => viol(rec, sch, art, "deserialize-panicked", id, format!("{}: reader with {}-byte reads: {}", mn, chunk, p)),
+            }
+        }
         let mut again = Vec::new();
         let _ = y.serialize_with_mode(&mut again, *c);
         if again != bytes {
